@@ -174,9 +174,11 @@ func (e *Engine) callFunction(st *State, fr *Frame, res ssa.Value, callee *ssa.F
 				engineErr("allrefs: body is not a closure literal")
 			}
 			bv := BVar("p", SInt)
-			body := e.evalSpecFn(st, cl.fn, append([]Val{{bv}}, cl.bindings...), []*Term{Le(IntC(1), bv)})
+			// all references of the type: every non-nil value (pre-existing objects are positive,
+			// objects allocated by this execution negative; reads under quantifiers carry no sign fact)
+			body := e.evalSpecFn(st, cl.fn, append([]Val{{bv}}, cl.bindings...), []*Term{Ne(bv, IntC(0))})
 			if res != nil {
-				fr.env[res] = Val{Forall([]*Term{bv}, Implies(Le(IntC(1), bv), body))}
+				fr.env[res] = Val{Forall([]*Term{bv}, Implies(Ne(bv, IntC(0)), body))}
 			}
 			return false
 		case (name == "pow2" || name == "bigval") && strings.HasSuffix(e.W.Fset.Position(callee.Pos()).Filename, "zz_verif_gen.go"):
